@@ -320,6 +320,49 @@ theorem bshape2_result_ok_self {s1 s2 : List Nat} :
     have : s1.length - s2.length = 0 := by omega
     simp [this]
 
+/-- the check made with `is_result=True`, written without the generated code -/
+theorem zipOk_result_iff (s t : List Nat) :
+    ((List.zip s.reverse t.reverse).all fun p => decide (p.1 = p.2 ∨ p.1 = 1)) = true ↔ ZipOk s t true := by
+  rw [← zip_all_iff]
+  have : (fun p : Nat × Nat => decide (p.1 = p.2 ∨ p.1 = 1)) = fun p => Gen.bcastOk p.1 p.2 true := by
+    funext p
+    rw [Bool.eq_iff_iff, bcastOk_nat]
+    simp
+  rw [this]
+
+/-- NumPy's `broadcast_to` admissibility (operand right-aligned and padded with 1s against the
+target), for an operand with no more axes than the target -/
+theorem padL_zip_all_iff {s t : List Nat} (hl : s.length ≤ t.length) :
+    ((List.zip (padL t.length s) t).all fun p => decide (p.1 = p.2 ∨ p.1 = 1)) = true ↔ ZipOk s t true := by
+  rw [List.all_eq_true]
+  constructor
+  · intro h k h1 h2
+    have hk : t.length - 1 - k < (List.zip (padL t.length s) t).length := by
+      simp [padL_length hl]; omega
+    have := h _ (List.getElem_mem hk)
+    rw [List.getElem_zip, padL_getElem hl] at this
+    have hkk : t.length - 1 - (t.length - 1 - k) = k := by omega
+    rw [hkk] at this
+    simp only [decide_eq_true_eq] at this
+    rw [ext_lt h2]
+    rcases this with h3 | h3
+    · exact Or.inl h3
+    · exact Or.inr (Or.inl h3)
+  · intro h p hp
+    obtain ⟨i, hi, rfl⟩ := List.mem_iff_getElem.mp hp
+    have hi' : i < t.length := by simp [padL_length hl] at hi; exact hi
+    rw [List.getElem_zip, padL_getElem hl]
+    simp only [decide_eq_true_eq]
+    by_cases h1 : t.length - 1 - i < s.length
+    · rcases h _ h1 (by omega) with h3 | h3 | h3
+      · left
+        rw [h3, ext_lt (by omega)]
+        congr 1
+        omega
+      · exact Or.inr h3
+      · simp at h3
+    · exact Or.inr (ext_ge (by omega))
+
 /-! ## the n-ary fold `_get_nary_broadcast_shape` -/
 
 /-- the extents found at one axis position are pairwise compatible -/
